@@ -1,1 +1,66 @@
-From MM Require Import Model.Conn.
+(* Props/C10.v - Every initialised session is closed exactly once; every connection is released. *)
+From Coq Require Import List Arith NArith Lia Bool.
+From MM Require Import Lib.Bytes Model.Conn Proofs.ConnInv Proofs.C10Proofs Gen.FactsConn.
+Import ListNotations.
+Open Scope N_scope.
+
+Definition B : N := conn_buffer_size.
+Definition BATCH : N := utils_batch_size.
+
+(* the life-cycle code still has the shape Model/Conn.v was transcribed from *)
+Theorem c10_source_shape :
+  translated_conn = true /\ connection_connection_start_ok = true /\ connection_connection_inner_start_ok = true /\
+  connection_connection_kill_ok = true /\ connection_connection_command_phase_ok = true /\
+  connection_connection_connection_phase_ok = true /\ connection_connection_authenticate_ok = true /\
+  connection_connection_handle_change_user_ok = true /\
+  server_mysqlserver_client_connected_cb_ok = true /\ stream_mysqlstream_drain_ok = true.
+Proof. repeat split; reflexivity. Qed.
+
+(* For EVERY list of events - commands, disconnects (clean, mid-packet, bad sequence id), socket failures,
+   pauses, kills of either kind, application results and exceptions from any callback, in any order:
+   session.close has been called at most once and only for an initialised session; once the connection
+   task has ended it has been called exactly once iff the session had been initialised. *)
+Theorem c10_close_exactly_once : forall hs evs,
+  let s := fst (session B BATCH hs evs) in
+  (closes s <= 1)%nat /\ (closes s = 1%nat -> inited s = true) /\
+  (ctl_ s = Done -> closes s = Nat.b2n (inited s)).
+Proof.
+  intros hs evs s. pose proof (session_good B BATCH hs evs) as G. fold s in G.
+  unfold good10, good in G. destruct (ctl_ s) as [w k f ic| |] eqn:Ec.
+  - apply P_weak in G. destruct G as [G1 G2]. repeat split; auto; intros; discriminate.
+  - unfold D10 in G. rewrite G. destruct (inited s); cbn; repeat split; auto; intros; try discriminate; lia.
+  - destruct G as [G1 G2]. repeat split; auto; intros; discriminate.
+Qed.
+
+(* while the task is alive the close count is determined by where it is: 0 before and during the command
+   phase, 1 exactly while (and after) the `finally: await session.close()` *)
+Theorem c10_never_early : forall hs evs w k f ic,
+  let s := fst (session B BATCH hs evs) in
+  ctl_ s = Susp w k f ic ->
+  match f with FClose _ => closes s = 1%nat | _ => closes s = 0%nat end.
+Proof.
+  intros hs evs w k f ic s E. pose proof (session_good B BATCH hs evs) as G. fold s in G.
+  unfold good10, good in G. rewrite E in G. destruct f; cbn in G; tauto.
+Qed.
+
+(* writer.close() and control.remove() happen exactly once, exactly when the connection task ends *)
+Theorem c10_released : forall hs evs,
+  let r := session B BATCH hs evs in
+  releases (snd r) = match ctl_ (fst r) with Done => 2%nat | _ => 0%nat end.
+Proof. exact (session_release B BATCH). Qed.
+
+(* a finished connection stays finished and silent *)
+Theorem c10_done_absorbing : forall s e, ctl_ s = Done -> step B BATCH s e = (s, []).
+Proof. exact (step_done B BATCH). Qed.
+
+(* non-vacuity: a conversation that ends by a kill during a streamed result, and one refused before init *)
+Example c10_example_killed :
+  let r := session B BATCH 50 [EvHandshake true true; EvDecide ASuccess; EvApp OVoid; EvPayload CQuery;
+                               EvApp (OSet (mk_sizes 1 [20] 5 7) [IRow 5; ISuspend; IRow 5]); EvKill KC; EvApp OVoid] in
+  ctl_ (fst r) = Done /\ closes (fst r) = 1%nat /\ inited (fst r) = true /\ releases (snd r) = 2%nat.
+Proof. vm_compute. repeat split; reflexivity. Qed.
+
+Example c10_example_refused :
+  let r := session B BATCH 50 [EvHandshake true false; EvDecide AForbidden] in
+  ctl_ (fst r) = Done /\ closes (fst r) = 0%nat /\ inited (fst r) = false /\ releases (snd r) = 2%nat.
+Proof. vm_compute. repeat split; reflexivity. Qed.
